@@ -1140,11 +1140,50 @@ def np_isscalar(it, a, k):
     return is_scalar(a[0])
 
 
+_OBJ_FUNS = {}
+
+
+def obj_fun(tag, *objs):
+    """one uninterpreted real function per tuple of (array) objects: polyval(coef, .), interp(., xp, fp)"""
+    key = (tag,) + tuple(id(o) for o in objs)
+    if key not in _OBJ_FUNS:
+        _OBJ_FUNS[key] = (objs, fresh_fun(tag, R, R))
+    return _OBJ_FUNS[key][1]
+
+
 def np_interp(it, a, k):
+    """ASSUMED: numpy.interp(x, xp, fp) is a function of x determined by the arrays xp, fp (piecewise linear; its
+    values are not interpreted).  left/right = inf (penalty tables) is handled by the caller's contract."""
     x, xp, fp = a[0], a[1], a[2]
     left = k.get('left')
     right = k.get('right')
-    return it.engine.interp_model(it, x, xp, fp, left, right)
+    if left is not None or right is not None:
+        return it.engine.interp_model(it, x, xp, fp, left, right)
+    f = obj_fun('interp', xp, fp)
+    return it.ops.map1(lambda v: SV(f(term(v, True))), as_vec(it, x) if isinstance(x, (list, tuple)) else x)
+
+
+def np_polyval(it, a, k):
+    """ASSUMED: polyval(p, x) is a function of x determined by p"""
+    p, x = a
+    if isinstance(p, (list, tuple)) and all(is_scalar(c) for c in p) and len(p) <= 6:
+        def horner(v):
+            acc = 0
+            for c in p:
+                acc = it.ops.binop('Add', it.ops.binop('Mult', acc, v), c)
+            return acc
+        return it.ops.map1(horner, x)
+    f = obj_fun('polyval', p)
+    return it.ops.map1(lambda v: SV(f(term(v, True))), x)
+
+
+def np_linspace(it, a, k):
+    start, stop, num = a[0], a[1], (a[2] if len(a) > 2 else k.get('num', 50))
+    num = nterm(num)
+    def fn(i):
+        step = it.ops.binop('Div', it.ops.binop('Sub', stop, start), it.ops.binop('Sub', num if isinstance(num, int) else SV(num), 1))
+        return it.ops.binop('Add', start, it.ops.binop('Mult', i if isinstance(i, int) else SV(i), step))
+    return Vec(num, fn)
 
 
 def np_errstate(it, a, k):
@@ -1175,7 +1214,15 @@ def np_logical_and(it, a, k):
 
 
 def np_isclose(it, a, k):
-    raise Unsupported('isclose')
+    x, y = a[0], a[1]
+    rel = k.get('rel_tol', 0 if 'abs_tol' in k else to_frac(1e-9))
+    ab = k.get('abs_tol', 0)
+    d = b_abs(it, [it.ops.binop('Sub', x, y)], {})
+    if rel == 0:
+        return it.ops.compare('LtE', d, ab)
+    mx = minmax(it, [b_abs(it, [x], {}), b_abs(it, [y], {})], {}, False)
+    bound = minmax(it, [it.ops.binop('Mult', rel, mx), ab], {}, False)
+    return it.ops.compare('LtE', d, bound)
 
 
 NUMPY = {
@@ -1184,7 +1231,7 @@ NUMPY = {
     'sum': np_sum, 'any': b_any, 'all': b_all, 'amin': np_amin, 'amax': np_amax, 'min': np_amin, 'max': np_amax,
     'shape': np_shape, 'squeeze': np_squeeze, 'isscalar': np_isscalar, 'interp': np_interp,
     'errstate': np_errstate, 'minimum': np_minimum, 'maximum': np_maximum, 'clip': np_clip,
-    'concatenate': np_concatenate, 'logical_and': np_logical_and, 'abs': b_abs, 'absolute': b_abs,
+    'concatenate': np_concatenate, 'polyval': np_polyval, 'linspace': np_linspace, 'logical_and': np_logical_and, 'abs': b_abs, 'absolute': b_abs,
 }
 for _n_ in ('sqrt', 'log10', 'exp', 'log', 'arcsinh', 'ceil', 'floor', 'cos'):
     NUMPY[_n_] = np_unary(_n_)
@@ -1252,6 +1299,13 @@ def external(src, attr):
 
 
 def obj_attr(it, o, name):
+    if o.cls == '<nt>':
+        if name == '_asdict':
+            return Builtin('_asdict', lambda it, a, k: dict(o.fields))
+        if name == '_replace':
+            return Builtin('_replace', lambda it, a, k: Obj('<nt>', dict(o.fields, **k), label=o.label))
+        if name == '_fields':
+            return tuple(o.fields.keys())
     if o.cls == '<logger>':
         return Builtin('log', lambda it, a, k: None)
     if o.cls == '<type>' and name == '__name__':
